@@ -73,7 +73,7 @@ def spec_strategy():
     return st.one_of(
         st.sampled_from(corpus),
         dag_spec(max_stages=6),
-        dag_spec(max_stages=6, allow=("multi", "fail", "stop", "poll")),
+        dag_spec(max_stages=6, allow=("multi", "fail", "stop", "poll", "disabled")),
         dag_spec(max_stages=5, allow=("multi", "poll"), joins=("AND", "DISC", "NOFM")),
         loop_spec(),
         syn_confluent_spec(),
